@@ -1032,9 +1032,20 @@ func (in *Interp) checkAlloc(fr *frame, instr *ssa.MakeSlice, ln *smt.Term) {
 	}
 	if in.branch(over, "alloc-limit") {
 		v := &Violation{Obligation: in.allocOb, Kind: "alloc", Msg: fmt.Sprintf("allocation at %s may exceed %d elements", in.posStr(instr.Pos(), fr), in.allocLimit)}
-		if in.solver.Check() != smt.Unsat {
-			v.Model = in.model()
-			in.res.Violations = append(in.res.Violations, v)
+		// prefer a counterexample that exceeds the limit by a margin the native replay can measure (the native side
+		// compares the bytes allocated during the run with 2*limit + 512 KiB)
+		wide := in.cmpConst(ln, ">", 2*int64(in.allocLimit)+(1<<20))
+		if in.solver.CheckWith(wide) == smt.Sat {
+			in.solver.Assert(wide)
+			if in.solver.Check() == smt.Sat {
+				v.Model = in.model()
+				in.res.Violations = append(in.res.Violations, v)
+			}
+		} else if in.solver.Check() != smt.Unsat {
+			// the bound can only be exceeded by less than the margin: the excess cannot be confirmed by measuring a native
+			// run, so this is reported as inconclusive (never a pass), not as a replayed violation
+			in.res.Inconclusive = appendUniq(in.res.Inconclusive, v.Msg+" by less than the native measurement margin (not confirmable by replay)")
+			in.res.Exhaustive = false
 		}
 		panic(pathEnd{"violation", v.Msg})
 	}
